@@ -21,6 +21,10 @@ def run_config(chk, tier, cfgname):
     typestate.apply(chk, "drop_all-table", "drop_all", aspects=("safety", "count", "once"))
     typestate.apply(chk, "link-table", "link", aspects=("safety",))
     typestate.report_automaton(chk, ["S6", "S1"])
+    # the value handed to an allocation function is moved into the block (otherwise it is destructed at once by the
+    # allocating function and a second time by the collector)
+    from gcv import rules_builder
+    rules_builder.value_moved_into_block(chk, prog)
     # set_live(true) only at allocation: every call passing `true` is followed by linking the same block
     prog.edges()
     n = 0
